@@ -89,6 +89,17 @@ impl Limit {
     fn into_inner(self) -> (r: Vec<u8>)
         ensures r == self.inner, self.within_cap() ==> vec_cap(&r) == self.cap0@
     { unimplemented!() }
+
+    // bytes::buf::Limit::{limit, set_limit}: read / overwrite the number of bytes that may still be written
+    #[verifier::external_body]
+    fn limit(&self) -> (r: usize)
+        ensures r == self.limit
+    { unimplemented!() }
+
+    #[verifier::external_body]
+    fn set_limit(&mut self, lim: usize)
+        ensures final(self).limit == lim, final(self).inner == old(self).inner, final(self).cap0 == old(self).cap0
+    { unimplemented!() }
 }
 
 trait VecLimit {
